@@ -240,8 +240,11 @@ def job_cli_slow(kind, wait_s):
     from asyncio_taskpool.control.server import TCPControlServer, UnixControlServer
     from asyncio_taskpool.pool import TaskPool
     fails, seen = [], []
+    # ... and a reply may be empty (a spawn request on a closed pool: PoolIsClosed carries no
+    # message): it is a reply like any other, the client goes on (seed H19)
     want = [("is-locked", "False"), ("num-running", "1"), ("gather-and-close", "ok"), ("is-locked", "True"),
-            ("num-running", "0")]
+            ("apply asyncio.sleep -a (0,)", ""), ("num-running", "0"), ("map asyncio.sleep [0]", ""),
+            ("is-full", "False")]
 
     async def work():
         await asyncio.sleep(wait_s)
@@ -265,7 +268,10 @@ def job_cli_slow(kind, wait_s):
         out = ""
 
         def replies():
-            return [m for m in re.findall(r"> ([^\n>][^\n]*)\n", out)]
+            # the client prints each reply (and a newline) and then the next prompt at the start
+            # of a line: reply i is what stands between prompt i and prompt i+1
+            segs = re.split(r"(?m)^> ", out)[1:]
+            return [x.strip("\n") for x in segs[:-1]]
         try:
             for i, (cmd, exp) in enumerate(want):
                 proc.stdin.write(cmd.encode() + b"\n")
@@ -367,6 +373,9 @@ CORPUS = [
     # (mirrored by the model, not judged)
     ("unix", ["start", "connect", "stop", "start", "connect", "send 0", "leave 0", "connect", "send 1", "stop",
               "leave 1"], ["raw", "raw"]),
+    # a second serve_forever() while serving (TCP: the port is taken) changes nothing
+    ("tcp", ["start", "connect", "start", "send 0", "connect", "send 1", "send 0", "stop", "leave 0", "leave 1"],
+     ["raw", "raw"]),
     # restart of the same server object after a completed stop
     ("unix", ["start", "connect", "stop", "leave 0", "start", "connect", "send 1", "stop", "send 1", "connect"],
      ["raw", "raw"]),
